@@ -258,6 +258,15 @@ def cdr_groups_finding(M):
         return "anchor vanished: Obis.to_group_cdr_str / the groups field"
     g = tuple(Sym(x, "int") for x in "ABCDEF")
     r = AbsEval(M).apply(fn, [AObj("Obis", {gf: g}, cls_key=("obis", "Obis"))])
+    if r[0] == "branch":
+        # the string depends on a test of a group value: decide on concrete group tuples (zero, absent and ordinary groups)
+        for gs in ((1, 2, 3, 4, 5, 6), (None, None, 1, 8, 0, None), (0, 0, 0, 0, 0, 0), (1, 0, 99, 97, 0, 255), (None, None, 96, 1, None, None), (1, 1, 0, 2, 129, 255)):
+            rc = AbsEval(M).apply(fn, [AObj("Obis", {gf: gs}, cls_key=("obis", "Obis"))])
+            want = ".".join(str(x) for x in gs[2:5])
+            if rc[0] in ("undecided", "branch"):
+                break
+            if rc != ("value", want):
+                return f"for groups {gs} the C.D.E string is {rc[1]!r} instead of {want!r}"
     if r[0] in ("undecided", "branch"):
         from sa.report import Undecided
         raise Undecided(f"Obis.to_group_cdr_str is outside the interpreted subset ({r[1]})")
